@@ -35,6 +35,7 @@ DEFAULT_PROFILE = {
         "get_records": 0,
         "export": 0,
         "peek": 0,
+        "rebuild": 0,
         "get_record_absent": 0,
         "clock_jump": 0,
         "restart_lite": 0,
@@ -333,12 +334,15 @@ class Gen(object):
         if k == "uri":
             return ["uri", rng.choice(pools.VALUE_URIS)]
         if k == "qnv":
+            if rng.random() < 0.08:
+                # the name of a PROV (sub)type as the value of an ordinary attribute
+                return ["qn", "prov", pools.PROV_URI, rng.choice(pools.PROV_TYPES)]
             return self.name_spec(ch, {"nsobj": 4, "qn": 3})
         if k == "lang":
             return ["lit", rng.choice(pools.STRINGS), None, rng.choice(pools.LANGS)]
         if k == "litf":
             u, l = rng.choice(pools.FOREIGN_DATATYPES)
-            return ["lit", rng.choice(["1", "abc", "2012", "", "0A", "x y", "007", "+5", " 3 "]),
+            return ["lit", rng.choice(["1", "abc", "2012", "", "0A", "x y", "007", "+5", " 3 ", "ex:x", "o:b", "x"]),
                     self.datatype_spec(ch, u, l), None]
         if k == "litn":
             t, lex, _ = rng.choice(pools.NATIVE_LITERALS)
@@ -355,11 +359,47 @@ class Gen(object):
                     return ["nsobj", owner, p, local]
         return ["qn", self.rng.choice(["dt", "dt", "ex", "o"]), uri, local]
 
+    def _spec_ns_uri(self, ch, spec):
+        """Namespace URI a name spec was *requested* under, as far as the generator knows."""
+        t = spec[0]
+        if t == "qn":
+            return spec[2]
+        if t == "full":
+            return spec[1]
+        if t == "nsobj":
+            for p, u in self.ns_obj.get(spec[1], []):
+                if p == spec[2]:
+                    return u
+        if t == "pl":
+            for p, u, _ in self.scope_prefixes(ch):
+                if p == spec[1]:
+                    return u
+        if t == "bare":
+            return self.scope_default(ch)
+        return None
+
     def attr_name_spec(self, ch):
         rng = self.rng
         if rng.random() < self.p["attr_prov"]:
             return ["qn", "prov", pools.PROV_URI, rng.choice(pools.PROV_EXTRA_ATTRS)]
-        return self.name_spec(ch, for_attr=True)
+        for _ in range(6):
+            spec = self.name_spec(ch, for_attr=True)
+            # attribute names in the PROV namespace are chosen deliberately (above, and the
+            # formal ones by the oracles that want them), never by accident through a user
+            # prefix bound to the PROV namespace: prov:entity next to prov:collection is the
+            # multi-member membership path that C05 disclaims
+            if self._spec_ns_uri(ch, spec) != pools.PROV_URI:
+                return spec
+        return ["qn", "ex", "http://ex.org/a/", self.local()]
+
+    def foreign_formal_pair(self, ch, kind):
+        """A PROV formal attribute that is *not* formal for this record kind, given among
+        the other attributes (e.g. prov:time on an attribution): accepted by the API,
+        single-valued, and must survive like any other attribute."""
+        own = set(pools.KINDS[kind][1])
+        cands = [f for f in ("time", "activity", "entity", "agent", "plan", "trigger") if f not in own]
+        f = self.rng.choice(cands)
+        return [["qn", "prov", pools.PROV_URI, f], self.formal_value(ch, f, kind)]
 
     def extras(self, ch, n=None):
         rng = self.rng
@@ -436,6 +476,8 @@ class Gen(object):
             if present:
                 formal[f] = self.formal_value(ch, f, kind)
         extra = self.extras(ch) if rng.random() < self.p["p_extra"] else []
+        if rng.random() < self.p.get("p_foreign_formal", 0.04):
+            extra = extra + [self.foreign_formal_pair(ch, kind)]
         form = "dict" if rng.random() < 0.4 else "pairs"
         if via == "conv":
             if kind in pools.CONVENIENCE:
@@ -718,9 +760,19 @@ class Gen(object):
         return [
             "roundtrip", h, dh, fmt, self.write_opts(fmt),
             rng.choice(["str", "text", "bin"]),
-            rng.choice(["content", "bytes", "text", "bin"]),
+            rng.choice(["content", "bytes", "text", "bin", "content", "bytes", "text", "bin", "reuse"]),
             between,
         ]
+
+    def g_rebuild(self):
+        """A content-preserving copy under other prefixes / record order (see rebuild.py)."""
+        rng = self.rng
+        dh = rng.choice(self.docs + self.derived_docs)
+        h = self.fresh("P")
+        self._add_derived(h)
+        return ["rebuild", h, dh, {"perm": rng.choice([None, rng.randrange(10**6)]),
+                                   "prefix": rng.choice(["alt", "alt", "orig"]), "dup": None,
+                                   "via": rng.choice(["new_record", "records_ctor"]), "edit": None}]
 
     def g_eq(self):
         cs = self.docs + self.derived
